@@ -33,6 +33,17 @@ theorem switch_table :
 @[simp] theorem switchEmptyErr_eq : switchEmptyErr = .ElseNotMatched := rfl
 @[simp] theorem popEmptyErr_eq : popEmptyErr = .EndIfNotMatched := rfl
 @[simp] theorem unfinishedErr_eq : unfinishedErr = .ConditionChainNotFinished := rfl
+@[simp] theorem fileUnfinishedErr_eq : fileUnfinishedErr = .ConditionChainNotFinished := rfl
+@[simp] theorem elseIsElse_eq : elseIsElse = true := rfl
+@[simp] theorem elifIsElse_eq : elifIsElse = false := rfl
+@[simp] theorem nonNameGate_eq : nonNameGate = .skipNoEffect := rfl
+@[simp] theorem afterElseErr_t : afterElseErr true = .ElseAfterElse := rfl
+@[simp] theorem afterElseErr_f : afterElseErr false = .ElifAfterElse := rfl
+@[simp] theorem newBlock_eq (c : CS) : newBlock c = ⟨c, false⟩ := rfl
+
+/-- `Block.switch`, cell by cell: an error exactly when the `#else` branch has started -/
+@[simp] theorem block_switch_seen (c : CS) (a e : Bool) : Block.switch ⟨c, true⟩ a e = .error (afterElseErr e) := rfl
+@[simp] theorem block_switch_fresh (c : CS) (a e : Bool) : Block.switch ⟨c, false⟩ a e = .ok ⟨c.switch a, e⟩ := rfl
 
 @[simp] theorem gate_if : gate "if" = .skipPushes .DisabledInner := by decide
 @[simp] theorem gate_ifdef : gate "ifdef" = .skipPushes .DisabledInner := by decide
@@ -50,7 +61,7 @@ theorem switch_table :
 @[simp] theorem di_beq_en : (CS.DisabledInner == CS.Enabled) = false := by decide
 @[simp] theorem do_beq_en : (CS.DisabledOuter == CS.Enabled) = false := by decide
 
-theorem active_cons (c : CS) (r : List CS) : active (c :: r) = ((c == .Enabled) && active r) := by
+theorem active_cons (b : Block) (r : List Block) : active (b :: r) = ((b.state == .Enabled) && active r) := by
   simp [active]
 
 @[simp] theorem active_nil : active [] = true := rfl
@@ -58,25 +69,23 @@ theorem active_cons (c : CS) (r : List CS) : active (c :: r) = ((c == .Enabled) 
 /-! ### one line -/
 
 /-- a line met while some level is not active -/
-theorem step_inactive (cv) (ch : List CS) (m : Macros) (out : List (List CTok)) (h : active ch = false)
+theorem step_inactive (cv) (ch : List Block) (m : Macros) (out : List (List CTok)) (h : active ch = false)
     (d : Dir) :
     step cv ⟨ch, m, out⟩ d = match d with
-      | .ifc _ | .ifdef _ _ => .ok ⟨.DisabledInner :: ch, m, out⟩
+      | .ifc _ | .ifdef _ _ => .ok ⟨⟨.DisabledInner, false⟩ :: ch, m, out⟩
       | .elif c => exec cv ⟨ch, m, out⟩ (.elif c)
       | .els => exec cv ⟨ch, m, out⟩ .els
       | .endif => exec cv ⟨ch, m, out⟩ .endif
       | _ => .ok ⟨ch, m, out⟩ := by
   cases d with
-  | ifdef neg n => cases neg <;> simp [step, Dir.command, h]
-  | _ => simp [step, Dir.command, h]
+  | ifdef neg n => cases neg <;> simp [step, Dir.command, Cmd.gate, h]
+  | _ => simp [step, Dir.command, Cmd.gate, h]
 
 /-- a line met while every level is active -/
-theorem step_active (cv) (ch : List CS) (m : Macros) (out : List (List CTok)) (h : active ch = true)
+theorem step_active (cv) (ch : List Block) (m : Macros) (out : List (List CTok)) (h : active ch = true)
     (d : Dir) :
     step cv ⟨ch, m, out⟩ d = exec cv ⟨ch, m, out⟩ d := by
-  cases d with
-  | ifdef neg n => cases neg <;> simp [step, Dir.command, h]
-  | _ => simp [step, Dir.command, h]
+  simp [step, h]
 
 theorem run_append (cv) (s : St) (a b : List Dir) :
     run cv s (a ++ b) = match run cv s a with
@@ -101,6 +110,7 @@ def plainDir : Plain → Dir
   | .pragma .unknown => .pragma .unknown
   | .incl f => .incl f
   | .unknown => .unknown
+  | .nonName => .nonName
 
 def headDir : Head → Dir
   | .ifc c => .ifc c
@@ -156,7 +166,7 @@ def toErr : Reject CondErr → Err
   | .missingInclude => .FailedToFindFile
 
 /-- continue the automaton from the state the reference prescribes -/
-def andThen (cv : Macros → List CTok → Except CondErr Bool) (ch : List CS) (rest : List Dir) : Except (Reject CondErr) (Env × Out) → Except Err St
+def andThen (cv : Macros → List CTok → Except CondErr Bool) (ch : List Block) (rest : List Dir) : Except (Reject CondErr) (Env × Out) → Except Err St
   | .ok s' => run cv ⟨ch, s'.1, s'.2⟩ rest
   | .error e => .error (toErr e)
 
@@ -240,7 +250,7 @@ theorem Chain.sel_false {ε} (cv : Env → List CTok → Except ε Bool) :
 
 /-! ### the refinement -/
 
-theorem exec_plain_active (cv) (ch : List CS) (m : Macros) (out : Out) (p : Plain) :
+theorem exec_plain_active (cv) (ch : List Block) (m : Macros) (out : Out) (p : Plain) :
     exec cv ⟨ch, m, out⟩ (plainDir p) =
       match (p.apply (m, out) : Except (Reject CondErr) (Env × Out)) with
       | .ok s' => .ok ⟨ch, s'.1, s'.2⟩
@@ -251,13 +261,13 @@ theorem exec_plain_active (cv) (ch : List CS) (m : Macros) (out : Out) (p : Plai
   | _ => simp [plainDir, exec, Plain.apply, toErr, expandText_eq, define_eq, undef_eq]
 
 theorem step_head_inactive (cv) (ch m out) (h : Head) (ha : active ch = false) :
-    step cv ⟨ch, m, out⟩ (headDir h) = .ok ⟨.DisabledInner :: ch, m, out⟩ := by
+    step cv ⟨ch, m, out⟩ (headDir h) = .ok ⟨⟨.DisabledInner, false⟩ :: ch, m, out⟩ := by
   cases h <;> simp [headDir, step_inactive cv _ _ _ ha]
 
 theorem step_head_active (cv) (ch m out) (h : Head) (ha : active ch = true) :
     step cv ⟨ch, m, out⟩ (headDir h) =
       match (h.value cv m : Except (Reject CondErr) Bool) with
-      | .ok b => .ok ⟨pushState b :: ch, m, out⟩
+      | .ok b => .ok ⟨⟨pushState b, false⟩ :: ch, m, out⟩
       | .error e => .error (toErr e) := by
   cases h with
   | ifc c =>
@@ -266,23 +276,23 @@ theorem step_head_active (cv) (ch m out) (h : Head) (ha : active ch = true) :
   | ifdef n => simp [headDir, step_active cv _ _ _ ha, exec, Head.value, isDefined_eq]
   | ifndef n => simp [headDir, step_active cv _ _ _ ha, exec, Head.value, isDefined_eq]
 
-theorem step_endif (cv) (top : CS) (r : List CS) (m out) :
+theorem step_endif (cv) (top : Block) (r : List Block) (m out) :
     step cv ⟨top :: r, m, out⟩ .endif = .ok ⟨r, m, out⟩ := by
   cases ha : active (top :: r)
   · rw [step_inactive cv _ _ _ ha]; rfl
   · rw [step_active cv _ _ _ ha]; rfl
 
-theorem step_els (cv) (top : CS) (r : List CS) (m out) :
-    step cv ⟨top :: r, m, out⟩ .els = .ok ⟨top.switch true :: r, m, out⟩ := by
-  cases ha : active (top :: r)
+theorem step_els (cv) (top : CS) (r : List Block) (m out) :
+    step cv ⟨⟨top, false⟩ :: r, m, out⟩ .els = .ok ⟨⟨top.switch true, true⟩ :: r, m, out⟩ := by
+  cases ha : active (⟨top, false⟩ :: r)
   · rw [step_inactive cv _ _ _ ha]; rfl
   · rw [step_active cv _ _ _ ha]; rfl
 
-theorem step_elif (cv) (top : CS) (r : List CS) (m out) (c : List CTok) (b : Bool) (hb : cv m c = .ok b) :
-    step cv ⟨top :: r, m, out⟩ (.elif c) = .ok ⟨top.switch b :: r, m, out⟩ := by
-  cases ha : active (top :: r)
-  · rw [step_inactive cv _ _ _ ha]; simp [exec, hb]
-  · rw [step_active cv _ _ _ ha]; simp [exec, hb]
+theorem step_elif (cv) (top : CS) (r : List Block) (m out) (c : List CTok) (b : Bool) (hb : cv m c = .ok b) :
+    step cv ⟨⟨top, false⟩ :: r, m, out⟩ (.elif c) = .ok ⟨⟨top.switch b, false⟩ :: r, m, out⟩ := by
+  cases ha : active (⟨top, false⟩ :: r)
+  · rw [step_inactive cv _ _ _ ha]; simp [exec, hb, switchTop]
+  · rw [step_active cv _ _ _ ha]; simp [exec, hb, switchTop]
 
 /-- processing a well-formed tree keeps the macro-table invariant -/
 theorem Plain.apply_inv (Inv : Macros → Prop) (cv) (p : Plain) (h : ItemWF Inv cv (.plain p))
@@ -295,6 +305,7 @@ theorem Plain.apply_inv (Inv : Macros → Prop) (cv) (p : Plain) (h : ItemWF Inv
   | pragma k => cases k <;> simp [Plain.apply] at hs <;> (subst hs; exact hm)
   | incl f => cases f <;> simp [Plain.apply] at hs; subst hs; exact hm
   | unknown => simp [Plain.apply] at hs
+  | nonName => simp [Plain.apply] at hs
 
 mutual
 theorem Item.sel_inv (Inv : Macros → Prop) (cv) : ∀ (i : Item), ItemWF Inv cv i → ∀ (act : Bool) (m : Macros)
@@ -356,7 +367,7 @@ theorem Chain.sel_inv (Inv : Macros → Prop) (cv) : ∀ (c : Chain), ChainWF In
 end
 
 mutual
-theorem Item.refines (Inv : Macros → Prop) (cv) : ∀ (i : Item), ItemWF Inv cv i → ∀ (ch : List CS)
+theorem Item.refines (Inv : Macros → Prop) (cv) : ∀ (i : Item), ItemWF Inv cv i → ∀ (ch : List Block)
     (m : Macros) (out : Out) (rest : List Dir), Inv m →
     run cv ⟨ch, m, out⟩ (flattenItem i ++ rest) = andThen cv ch rest (i.sel cv (active ch) (m, out))
   | .plain p, _, ch, m, out, rest, _ => by
@@ -377,7 +388,7 @@ theorem Item.refines (Inv : Macros → Prop) (cv) : ∀ (i : Item), ItemWF Inv c
     · rw [step_head_inactive cv ch m out h ha]
       simp only []
       rw [Items.refines Inv cv body hb _ _ _ _ hm]
-      have h1 : active (CS.DisabledInner :: ch) = false := by simp [active_cons]
+      have h1 : active (⟨CS.DisabledInner, false⟩ :: ch) = false := by simp [active_cons]
       rw [h1, Items.sel_false]
       simp only [andThen]
       rw [Chain.refines Inv cv chain hc _ _ _ _ _ hm, ha, Chain.sel_false]
@@ -389,7 +400,7 @@ theorem Item.refines (Inv : Macros → Prop) (cv) : ∀ (i : Item), ItemWF Inv c
       | ok b =>
         simp only []
         rw [Items.refines Inv cv body hb _ _ _ _ hm]
-        have h1 : active (pushState b :: ch) = b := by cases b <;> simp [active_cons, ha]
+        have h1 : active (⟨pushState b, false⟩ :: ch) = b := by cases b <;> simp [active_cons, ha]
         rw [h1]
         cases hs : body.sel cv b (m, out) with
         | error e => simp [andThen]
@@ -398,7 +409,7 @@ theorem Item.refines (Inv : Macros → Prop) (cv) : ∀ (i : Item), ItemWF Inv c
           simp only [andThen]
           rw [Chain.refines Inv cv chain hc _ _ _ _ _ hm', ha]
           cases b <;> simp [taken, andThen]
-theorem Items.refines (Inv : Macros → Prop) (cv) : ∀ (is : Items), ItemsWF Inv cv is → ∀ (ch : List CS)
+theorem Items.refines (Inv : Macros → Prop) (cv) : ∀ (is : Items), ItemsWF Inv cv is → ∀ (ch : List Block)
     (m : Macros) (out : Out) (rest : List Dir), Inv m →
     run cv ⟨ch, m, out⟩ (flattenItems is ++ rest) = andThen cv ch rest (is.sel cv (active ch) (m, out))
   | .nil, _, ch, m, out, rest, _ => by simp [flattenItems, Items.sel, andThen]
@@ -412,15 +423,15 @@ theorem Items.refines (Inv : Macros → Prop) (cv) : ∀ (is : Items), ItemsWF I
       have hm' := Item.sel_inv Inv cv i hi _ m out s' hm hs
       simp only [andThen]; rw [Items.refines Inv cv is his _ _ _ _ hm']; simp [andThen]
 theorem Chain.refines (Inv : Macros → Prop) (cv) : ∀ (c : Chain), ChainWF Inv cv c → ∀ (top : CS)
-    (r : List CS) (m : Macros) (out : Out) (rest : List Dir), Inv m →
-    run cv ⟨top :: r, m, out⟩ (flattenChain c ++ rest) =
+    (r : List Block) (m : Macros) (out : Out) (rest : List Dir), Inv m →
+    run cv ⟨⟨top, false⟩ :: r, m, out⟩ (flattenChain c ++ rest) =
       andThen cv r rest (c.sel cv (active r) (taken top) (m, out))
   | .endif, _, top, r, m, out, rest, _ => by
     simp [flattenChain, run, step_endif, Chain.sel, andThen]
   | .els body, hb, top, r, m, out, rest, hm => by
     simp only [flattenChain, List.cons_append, run, step_els, List.append_assoc]
     rw [Items.refines Inv cv body hb _ _ _ _ hm]
-    have h1 : active (top.switch true :: r) = (active r && !taken top) := by
+    have h1 : active (⟨top.switch true, true⟩ :: r) = (active r && !taken top) := by
       cases top <;> simp [active_cons, taken]
     rw [h1]
     simp only [Chain.sel]
@@ -438,7 +449,7 @@ theorem Chain.refines (Inv : Macros → Prop) (cv) : ∀ (c : Chain), ChainWF In
       · simp only [active_cons, har, Bool.and_false, Items.sel_false, andThen]
         rw [Chain.refines Inv cv chain hch _ _ _ _ _ hm, har]
         simp [Chain.sel_false, andThen]
-      · have h1 : active (CS.switch .DisabledInner b :: r) = b := by cases b <;> simp [active_cons, har]
+      · have h1 : active (⟨CS.switch .DisabledInner b, false⟩ :: r) = b := by cases b <;> simp [active_cons, har]
         rw [h1]
         simp only [taken, Bool.not_false, Bool.and_self, if_true, hcv]
         cases hs : body.sel cv b (m, out) with
@@ -471,68 +482,110 @@ def CleanDir (cv : Macros → List CTok → Except CondErr Bool) : Dir → Prop
   | .pragma .unknown => False
   | .incl none => False
   | .unknown => False
+  | .nonName => False
   | _ => True
 
 def shapeErr : ShapeErr → Err
   | .unmatchedElse => .chain .ElseNotMatched
   | .unmatchedEndif => .chain .EndIfNotMatched
   | .unterminated => .chain .ConditionChainNotFinished
+  | .elseAfterElse => .chain .ElseAfterElse
+  | .elifAfterElse => .chain .ElifAfterElse
 
-theorem step_len (cv) (d : Dir) (hc : CleanDir cv d) (ch : List CS) (m : Macros) (out : List (List CTok)) :
-    match shape d, ch with
-    | .opens, _ => ∃ s', step cv ⟨ch, m, out⟩ d = .ok s' ∧ s'.chain.length = ch.length + 1
-    | .elif, [] | .els, [] => step cv ⟨ch, m, out⟩ d = .error (.chain .ElseNotMatched)
-    | .elif, _ :: _ | .els, _ :: _ => ∃ s', step cv ⟨ch, m, out⟩ d = .ok s' ∧ s'.chain.length = ch.length
-    | .endif, [] => step cv ⟨ch, m, out⟩ d = .error (.chain .EndIfNotMatched)
-    | .endif, _ :: r => ∃ s', step cv ⟨ch, m, out⟩ d = .ok s' ∧ s'.chain.length = r.length
-    | .other, _ => ∃ s', step cv ⟨ch, m, out⟩ d = .ok s' ∧ s'.chain.length = ch.length := by
+/-- what the grammar scan keeps of the stack: per open block, has its `#else` been seen -/
+def flags (ch : List Block) : List Bool := ch.map (·.seenElse)
+
+/-- one line of `scanC` -/
+def scanStep (st : List Bool) : Shape → Except ShapeErr (List Bool)
+  | .opens => .ok (false :: st)
+  | .elif => match st with
+    | [] => .error .unmatchedElse
+    | true :: _ => .error .elifAfterElse
+    | false :: _ => .ok st
+  | .els => match st with
+    | [] => .error .unmatchedElse
+    | true :: _ => .error .elseAfterElse
+    | false :: st' => .ok (true :: st')
+  | .endif => match st with
+    | [] => .error .unmatchedEndif
+    | _ :: st' => .ok st'
+  | .other => .ok st
+
+theorem scanC_cons (st : List Bool) (sh : Shape) (r : List Shape) :
+    scanC st (sh :: r) = match scanStep st sh with
+      | .ok st' => scanC st' r
+      | .error e => .error e := by
+  cases sh with
+  | opens => simp [scanC, scanStep]
+  | other => simp [scanC, scanStep]
+  | endif => cases st <;> simp [scanC, scanStep]
+  | elif => rcases st with _ | ⟨_ | _, _⟩ <;> simp [scanC, scanStep]
+  | els => rcases st with _ | ⟨_ | _, _⟩ <;> simp [scanC, scanStep]
+
+/-- one clean line moves the automaton exactly as the grammar scan moves its flag stack, and fails exactly
+    where the scan fails, with the corresponding error variant -/
+theorem step_flags (cv) (d : Dir) (hc : CleanDir cv d) (ch : List Block) (m : Macros) (out : List (List CTok)) :
+    match scanStep (flags ch) (shape d) with
+    | .ok st' => ∃ s', step cv ⟨ch, m, out⟩ d = .ok s' ∧ flags s'.chain = st'
+    | .error e => step cv ⟨ch, m, out⟩ d = .error (shapeErr e) := by
   cases ha : active ch
   · rw [step_inactive cv _ _ _ ha]
     cases d with
-    | elif c => obtain ⟨b, hb⟩ := hc m trivial; cases ch <;> simp [shape, exec, hb]
-    | els => cases ch <;> simp [shape, exec]
-    | endif => cases ch <;> simp [shape, exec]
-    | pragma k => cases k <;> simp [shape]
-    | _ => simp [shape]
+    | elif c =>
+      obtain ⟨b, hb⟩ := hc m trivial
+      rcases ch with _ | ⟨⟨c0, _ | _⟩, r⟩ <;> simp [shape, scanStep, flags, exec, hb, switchTop, shapeErr]
+    | els => rcases ch with _ | ⟨⟨c0, _ | _⟩, r⟩ <;> simp [shape, scanStep, flags, exec, switchTop, shapeErr]
+    | endif => cases ch <;> simp [shape, scanStep, flags, exec, shapeErr]
+    | pragma k => cases k <;> simp [shape, scanStep]
+    | _ => simp [shape, scanStep, flags]
   · rw [step_active cv _ _ _ ha]
     cases d with
-    | ifc c => obtain ⟨b, hb⟩ := hc m trivial; simp [shape, exec, hb]
-    | elif c => obtain ⟨b, hb⟩ := hc m trivial; cases ch <;> simp [shape, exec, hb]
-    | els => cases ch <;> simp [shape, exec]
-    | endif => cases ch <;> simp [shape, exec]
-    | pragma k => cases k <;> simp_all [shape, exec, CleanDir]
-    | incl f => cases f <;> simp_all [shape, exec, CleanDir]
+    | ifc c => obtain ⟨b, hb⟩ := hc m trivial; simp [shape, scanStep, flags, exec, hb]
+    | elif c =>
+      obtain ⟨b, hb⟩ := hc m trivial
+      rcases ch with _ | ⟨⟨c0, _ | _⟩, r⟩ <;> simp [shape, scanStep, flags, exec, hb, switchTop, shapeErr]
+    | els => rcases ch with _ | ⟨⟨c0, _ | _⟩, r⟩ <;> simp [shape, scanStep, flags, exec, switchTop, shapeErr]
+    | endif => cases ch <;> simp [shape, scanStep, flags, exec, shapeErr]
+    | pragma k => cases k <;> simp_all [shape, scanStep, exec, CleanDir]
+    | incl f => cases f <;> simp_all [shape, scanStep, exec, CleanDir]
     | unknown => simp_all [CleanDir]
-    | _ => simp [shape, exec]
+    | nonName => simp_all [CleanDir]
+    | _ => simp [shape, scanStep, flags, exec]
 
-/-- result of a whole file as far as nesting is concerned -/
+/-- result of a whole file as far as nesting is concerned: the end-of-file test of `preprocess_included_file`
+    (file base 0), then the one of `preprocess_initial_file` -/
 def finish : Except Err St → Except Err Unit
-  | .ok s => if s.chain.isEmpty then .ok () else .error (.chain unfinishedErr)
+  | .ok s =>
+    if s.chain.length ≠ 0 then .error (.chain fileUnfinishedErr)
+    else if s.chain.isEmpty then .ok () else .error (.chain unfinishedErr)
   | .error e => .error e
 
 theorem run_scan (cv) : ∀ (ds : List Dir), (∀ d ∈ ds, CleanDir cv d) → ∀ (s : St),
-    finish (run cv s ds) = (scan s.chain.length (ds.map shape)).mapError shapeErr
+    finish (run cv s ds) = (scanC (flags s.chain) (ds.map shape)).mapError shapeErr
   | [], _, s => by
-    cases hch : s.chain <;> simp [run, finish, scan, hch, Except.mapError, shapeErr]
+    cases hch : s.chain <;> simp [run, finish, scanC, flags, hch, Except.mapError, shapeErr]
   | d :: ds, hcl, ⟨ch, m, out⟩ => by
     have hd := hcl d (by simp)
     have ih := run_scan cv ds (fun d hd => hcl d (by simp [hd]))
-    have hs := step_len cv d hd ch m out
-    simp only [run, List.map_cons]
-    cases hsh : shape d <;> rw [hsh] at hs
-    · obtain ⟨s', h1, h2⟩ := hs
-      simp [h1, ih, h2, scan]
-    · cases ch with
-      | nil => simp at hs; simp [hs, finish, scan, Except.mapError, shapeErr]
-      | cons t r => simp at hs; obtain ⟨s', h1, h2⟩ := hs; simp [h1, ih, h2, scan]
-    · cases ch with
-      | nil => simp at hs; simp [hs, finish, scan, Except.mapError, shapeErr]
-      | cons t r => simp at hs; obtain ⟨s', h1, h2⟩ := hs; simp [h1, ih, h2, scan]
-    · cases ch with
-      | nil => simp at hs; simp [hs, finish, scan, Except.mapError, shapeErr]
-      | cons t r => simp at hs; obtain ⟨s', h1, h2⟩ := hs; simp [h1, ih, h2, scan]
-    · obtain ⟨s', h1, h2⟩ := hs
-      simp [h1, ih, h2, scan]
+    have hs := step_flags cv d hd ch m out
+    simp only [run, List.map_cons, scanC_cons]
+    cases hst : scanStep (flags ch) (shape d) with
+    | error e =>
+      rw [hst] at hs
+      simp [hs, finish, Except.mapError]
+    | ok st' =>
+      rw [hst] at hs
+      obtain ⟨s', h1, h2⟩ := hs
+      simp [h1, ih, h2]
+
+/-- the error-naming scan accepts exactly what the Boolean strict scan accepts -/
+theorem scanC_ok_iff_strict : ∀ (l : List Shape) (st : List Bool), scanC st l = .ok () ↔ scanStrict st l = true
+  | [], st => by cases st <;> simp [scanC, scanStrict]
+  | .opens :: r, st => by simp [scanC, scanStrict, scanC_ok_iff_strict r]
+  | .other :: r, st => by simp [scanC, scanStrict, scanC_ok_iff_strict r]
+  | .endif :: r, st => by cases st <;> simp [scanC, scanStrict, scanC_ok_iff_strict r]
+  | .elif :: r, st => by rcases st with _ | ⟨_ | _, _⟩ <;> simp [scanC, scanStrict, scanC_ok_iff_strict r]
+  | .els :: r, st => by rcases st with _ | ⟨_ | _, _⟩ <;> simp [scanC, scanStrict, scanC_ok_iff_strict r]
 
 /-! ### sequences produced from a tree satisfy the strict C grammar check -/
 
